@@ -56,3 +56,32 @@ fn reencode_denotes_same_term() {
     kani::cover!(c0 == d0 && r0 == 0, "shared term keeps the target's id");
     std::mem::forget(src); std::mem::forget(src_q); std::mem::forget(dst); std::mem::forget(dst_q); std::mem::forget(cache);
 }
+
+/// A quoted triple that BOTH databases hold (over a plain term both hold): re-encoding must find the target's existing
+/// identifier -- quoted triples are identified structurally -- and must not grow the target store.
+#[kani::proof]
+#[kani::unwind(6)]
+fn reencode_shared_quoted_term_keeps_identity() {
+    let c0 = ascii();
+    let mut src = Dictionary::new();
+    let mut src_q = QuotedTripleStore::new();
+    let pad: bool = kani::any();
+    if pad { src.encode(s1(&(c0 ^ 1))); } // shifts the source ids so that they clash with / differ from the target's
+    let t0 = src.encode(s1(&c0));
+    let q0 = src_q.encode(t0, t0, t0);
+
+    let mut dst = Dictionary::new();
+    let mut dst_q = QuotedTripleStore::new();
+    let u0 = dst.encode(s1(&c0));
+    let pre = dst_q.encode(u0, u0, u0);
+    let n_before = dst_q.len();
+
+    let mut cache: HashMap<u32, u32> = HashMap::new();
+    let rq = reencode_term_id(q0, &src, &src_q, &mut dst, &mut dst_q, &mut cache);
+    assert!(rq == pre, "the same quoted triple keeps the identifier the target already uses for it");
+    assert!(dst_q.len() == n_before, "no second identifier for the same quoted triple");
+    assert!(dst_q.decode(rq) == Some((u0, u0, u0)));
+    kani::cover!(pad && t0 != u0, "source and target ids of the shared plain term differ");
+    kani::cover!(!pad && t0 == u0, "ids coincide");
+    std::mem::forget(src); std::mem::forget(src_q); std::mem::forget(dst); std::mem::forget(dst_q); std::mem::forget(cache);
+}
